@@ -105,6 +105,11 @@ Theorem gen_table_clear :
   Gen_DataTable.Clear true = GenPrelude.Ok tt /\ Gen_DataTable.Clear false = GenPrelude.Ok tt.
 Proof. split; reflexivity. Qed.
 
+Theorem gen_multi_table_clear :
+  (forall cnt, Gen_HashMultiMap.Clear true cnt = GenPrelude.Ok (tt, cnt) /\ Gen_HashMultiMap.Clear false cnt = GenPrelude.Ok (tt, 0)) /\
+  (Gen_DataTable.Clear true = GenPrelude.Ok tt /\ Gen_DataTable.Clear false = GenPrelude.Ok tt).
+Proof. exact (conj gen_multi_clear gen_table_clear). Qed.
+
 (* ---------------------------------------------------------------- FRAME: every generated function of these classes that can
    reach the crew is total in the moved-from state (crew null, storage pointers null), for every value of the remaining
    fields and arguments *)
@@ -146,3 +151,30 @@ Proof.
   - destruct c; reflexivity.
   - intros k c' w' E. destruct (cc_clear_ok k c w H) as (c2 & w2 & E2 & _ & I & _). rewrite E in E2. inversion E2; subst. exact I.
 Qed.
+
+(* the same refinement on the FIELDS, not only on "does not get stuck": whenever the hand model's cc_clear returns c', the
+   generated Clear applied to the abstracted fields of c returns exactly the abstracted fields of c' (count, storage pointers) --
+   for every bucket-chain flag nb and every capacity (HashSet::Clear(true)) *)
+Theorem clear_refines_generated_fields :
+  forall c w c' w', cc_wf c ->
+    (cc_clear KTree c w = Ok c' w' ->
+       Gen_TreeSet.Clear (crew_null_of c) (count_of c) (storage_of c) (storage_of c) = GenPrelude.Ok (tt, count_of c', storage_of c', storage_of c')) /\
+    (cc_clear KHash c w = Ok c' w' -> forall nb cap, exists cap',
+       Gen_HashSet.Clear (crew_null_of c) nb (count_of c) cap (storage_of c) true = GenPrelude.Ok (tt, count_of c', cap', storage_of c')) /\
+    (cc_clear KMulti c w = Ok c' w' ->
+       Gen_HashMultiMap.Clear (crew_null_of c) (count_of c) = GenPrelude.Ok (tt, count_of c')).
+Proof.
+  intros c w c' w' H.
+  destruct c as [cr [|b0 body] items|].
+  - destruct H as (_ & _ & HI). specialize (HI eq_refl). subst items.
+    repeat split.
+    + intros E. inversion E; subst. reflexivity.
+    + intros E nb cap. inversion E; subst. eexists. reflexivity.
+    + unfold cc_clear. intros E. destruct (dealloc_all _ _ _) eqn:D; try discriminate. inversion E; subst. reflexivity.
+  - repeat split.
+    + unfold cc_clear. intros E. destruct (dealloc_all _ _ _) eqn:D; try discriminate. inversion E; subst. reflexivity.
+    + unfold cc_clear. intros E nb cap. destruct (dealloc_all _ _ _) eqn:D; try discriminate. inversion E; subst. eexists. reflexivity.
+    + unfold cc_clear. intros E. destruct (dealloc_all _ _ _) eqn:D; try discriminate. inversion E; subst. reflexivity.
+  - repeat split; intros E; inversion E; subst; try reflexivity. intros nb cap. eexists. reflexivity.
+Qed.
+
